@@ -23,9 +23,9 @@
 #endif
 #define pthread_exit(x) ((void)0)
 #ifdef VC_UNIT_MATRIX
-#include "/repo/src/matrix.c"
+#include "matrix.c"
 #else
-#include "/repo/src/metricspace.c"
+#include "metricspace.c"
 #endif
 
 #ifdef VC_RING
